@@ -59,6 +59,9 @@ if [ -d "$WT" ] && [ ! -f "$OUT/confirm.txt" ]; then
   fi
 fi
 
+# SEED_CONFIRM_ONLY=1: stop after the confirmation (used while a long run is reading /repo)
+[ "${SEED_CONFIRM_ONLY:-0}" = 1 ] && exit 0
+
 # run the checks against /repo with the change applied
 cd /verif || exit 2
 [ -z "$(git -C /repo status --porcelain)" ] || { log "/repo not clean"; exit 2; }
